@@ -316,7 +316,8 @@ func (m Mesh) PrimitiveCount() int {
 		return len(m.indices)
 
 	case LineTopology, LineStripTopology:
-		return len(m.indices) - 1
+		// A mesh without indices has no lines, not -1 of them
+		return max(len(m.indices)-1, 0)
 	}
 
 	panic(fmt.Errorf("unimplemented topology: %s", m.topology.String()))
